@@ -328,3 +328,169 @@ func ruleQ4(c *Ctx) {
 		c.viol("syntax.Quote: decoding-error branch", c.P.Pos(q.Pos()), "Quote no longer distinguishes invalid bytes (r == utf8.RuneError)")
 	}
 }
+
+// ---------- Q5 ----------
+
+func init() {
+	register("Q5", "the printer's fast paths agree with String(): an arm of writeValue that formats a scalar type itself (instead of calling its String method) writes the same string constants and calls the same formatting functions with the same constant arguments as that type's String method, so a value prints the same inside a container as on its own", 3, ruleQ5)
+	claim("C15", "Q5")
+}
+
+// printSig collects what a piece of code can print: string constants and
+// calls of formatting functions with their constant arguments. Package-local
+// helpers without constant arguments are looked through.
+func printSig(blocks []*ssa.BasicBlock, depth int, out map[string]bool) {
+	for _, b := range blocks {
+		for _, in := range b.Instrs {
+			var ops []*ssa.Value
+			for _, op := range in.Operands(ops) {
+				if op == nil || *op == nil {
+					continue
+				}
+				if k, ok := (*op).(*ssa.Const); ok && k.Value != nil {
+					if bt, ok := k.Type().Underlying().(*types.Basic); ok && bt.Info()&types.IsString != 0 {
+						out["const "+k.Value.ExactString()] = true
+					}
+				}
+			}
+			ci, ok := in.(ssa.CallInstruction)
+			if !ok {
+				continue
+			}
+			cal := ci.Common().StaticCallee()
+			if cal == nil {
+				continue
+			}
+			if r := cal.Signature.Recv(); r != nil {
+				if isNamedAny(r.Type(), "strings", "Builder") || isNamedAny(r.Type(), "bytes", "Buffer") {
+					continue
+				}
+			}
+			var consts []string
+			for _, a := range ci.Common().Args {
+				if k, ok := a.(*ssa.Const); ok && k.Value != nil {
+					consts = append(consts, k.Value.ExactString())
+				}
+			}
+			if len(consts) == 0 && cal.Blocks != nil && fnPkgPath(cal) == modPath+"/starlark" && depth > 0 && cal.Name() != "String" {
+				printSig(cal.Blocks, depth-1, out)
+				continue
+			}
+			out["call "+fnName(cal)+"("+strings.Join(consts, ",")+")"] = true
+		}
+	}
+}
+
+func isNamedAny(t types.Type, pkg, name string) bool {
+	n, ok := deref(t).(*types.Named)
+	return ok && n.Obj().Pkg() != nil && n.Obj().Pkg().Path() == pkg && n.Obj().Name() == name
+}
+
+func ruleQ5(c *Ctx) {
+	wv := c.P.Func("starlark", "writeValue")
+	if wv == nil {
+		c.anchorFail("starlark.writeValue not found")
+		return
+	}
+	arms := 0
+	eachInstr(wv, func(in ssa.Instruction) {
+		ta, ok := in.(*ssa.TypeAssert)
+		if !ok || !ta.CommaOk || ta.X != ssa.Value(wv.Params[1]) {
+			return
+		}
+		if _, isPtr := ta.AssertedType.(*types.Pointer); isPtr {
+			return // containers: judged by Q3
+		}
+		if types.IsInterface(ta.AssertedType) {
+			return
+		}
+		var entry *ssa.BasicBlock
+		var v ssa.Value
+		for _, r := range *ta.Referrers() {
+			if ex, ok := r.(*ssa.Extract); ok {
+				if ex.Index == 0 {
+					v = ex
+				} else if ex.Referrers() != nil {
+					for _, r2 := range *ex.Referrers() {
+						if ifi, ok := r2.(*ssa.If); ok {
+							entry = ifi.Block().Succs[0]
+						}
+					}
+				}
+			}
+		}
+		if entry == nil {
+			return
+		}
+		var region []*ssa.BasicBlock
+		for _, b := range wv.Blocks {
+			if b == entry || entry.Dominates(b) {
+				region = append(region, b)
+			}
+		}
+		// arms that recurse (tuples) or delegate to String() are not fast paths
+		recurses, delegates := false, false
+		for _, b := range region {
+			for _, in2 := range b.Instrs {
+				if ci, ok := in2.(ssa.CallInstruction); ok {
+					if cal := ci.Common().StaticCallee(); cal != nil {
+						if cal == wv {
+							recurses = true
+						}
+						if cal.Name() == "String" && len(ci.Common().Args) > 0 && ci.Common().Args[0] == v {
+							delegates = true
+						}
+					} else if ci.Common().IsInvoke() && ci.Common().Method.Name() == "String" {
+						delegates = true
+					}
+				}
+			}
+		}
+		tname := qualType(ta.AssertedType)
+		key := "writeValue: arm " + tname
+		pos := c.P.Pos(ta.Pos())
+		if recurses {
+			return
+		}
+		arms++
+		if delegates {
+			c.trivial(key, pos, "the arm calls the type's String method")
+			return
+		}
+		ms := c.P.SSA.MethodSets.MethodSet(ta.AssertedType)
+		sel := ms.Lookup(nil, "String")
+		if sel == nil {
+			c.viol(key, pos, "type has no String method to agree with")
+			return
+		}
+		sm := c.P.SSA.MethodValue(sel)
+		if sm == nil || sm.Blocks == nil {
+			c.anchorFail("String method of %s has no body", tname)
+			return
+		}
+		a, b := map[string]bool{}, map[string]bool{}
+		printSig(region, 2, a)
+		printSig(sm.Blocks, 2, b)
+		var onlyA, onlyB []string
+		for k := range a {
+			if !b[k] {
+				onlyA = append(onlyA, k)
+			}
+		}
+		for k := range b {
+			if !a[k] {
+				onlyB = append(onlyB, k)
+			}
+		}
+		sort.Strings(onlyA)
+		sort.Strings(onlyB)
+		if len(onlyA)+len(onlyB) == 0 {
+			c.ok(key, pos, fmt.Sprintf("same %d constants/formatting calls as %s", len(a), fnName(sm)))
+		} else {
+			c.viol(key, pos, fmt.Sprintf("the fast path prints differently from %s: only in writeValue %v, only in String %v - the value would print differently inside a container than on its own, and one of the two forms does not read back", fnName(sm), onlyA, onlyB))
+		}
+	})
+	if arms < 3 {
+		c.anchorFail("only %d scalar arms found in writeValue", arms)
+	}
+}
